@@ -209,6 +209,31 @@ def check_step_loop(ctx, r_bound: str, r_exh: str) -> None:
                 rep.add(r_exh, f"{impl.qname}:for-else", okb, f"{impl.module.rel}:{lp.lineno}", whyb)
 
 
+def check_staleness_over_all_node_inputs(ctx, rule: str) -> None:
+    """Staleness is tracked for every input the node *declares*, not only for those that happened to be collected when it
+    ran: both supersteps record a version for each name in ``node.inputs`` and the staleness test walks ``node.inputs``.
+    (A nested graph node runs on an inner default while a boundary-crossing value is still pending — that input is not
+    among the collected ones, and only its recorded version lets the later arrival make the node stale.)"""
+    db, rep = ctx.db, ctx.rep
+    from sa.model import superstep_funcs
+
+    n = 0
+    for ss in superstep_funcs(db):
+        for f in [ss] + list(ss.children.values()):
+            for a in walk_local(f.node):
+                if isinstance(a, ast.Assign) and isinstance(a.targets[0], ast.Name) and isinstance(a.value, ast.DictComp) and any(isinstance(c, ast.Call) and isinstance(c.func, ast.Attribute) and c.func.attr == "get_version" for c in ast.walk(a.value)) and "wait_for" not in src(a.value.generators[0].iter):
+                    n += 1
+                    it = a.value.generators[0].iter
+                    ok = isinstance(it, ast.Attribute) and it.attr == "inputs"
+                    rep.add(rule, f"{f.qname}:versions-for-every-declared-input", ok, f"{f.module.rel}:{a.lineno}", "a consumed version is recorded for every name in node.inputs" if ok else f"consumed versions are recorded for '{src(it)}' only (the values that were collected): an input the node ran without — a nested graph's inner default whose real value arrives later — has no recorded version and can never make the node stale")
+    if n < 2:
+        raise AnalysisError(f"only {n} input-version recordings found")
+    stale = db.func("runners._shared.helpers._is_stale")
+    loops = [lp for lp in walk_local(stale.node) if isinstance(lp, ast.For)]
+    ok = any(isinstance(lp.iter, ast.Attribute) and lp.iter.attr == "inputs" for lp in loops)
+    rep.add(rule, f"{stale.qname}:walks-declared-inputs", ok, stale.loc(), "the staleness test walks node.inputs" if ok else f"the staleness test walks '{src(loops[0].iter) if loops else '?'}' instead of the node's declared inputs: an input without a recorded version is never looked at")
+
+
 def check_stale_comparator(ctx, rule: str):
     """Staleness is decided per input: the current version of a parameter is compared with the version of
     the *same* parameter the node consumed last time; equal -> fresh, greater -> stale."""
@@ -286,6 +311,7 @@ def _r5(ctx) -> None:
     from .c02 import check_versions_from_snapshot
 
     check_versions_from_snapshot(ctx, "C04.R3")
+    check_staleness_over_all_node_inputs(ctx, "C04.R3")
 
     # ---- R7 ---------------------------------------------------------------------
     from .c17 import check_wait_freshness
